@@ -9,7 +9,8 @@ EXPLANATION = ("Lock-state typestate over push/pop of both stacks (atomic-flag a
                "non-atomic metrics happens with the flag/mutex held on all paths, every return leaves it free, acquire is "
                "swap(true, >=Acquire) tested for false / RawMutex::lock, release after writes is >=Release; full/empty guards are the exact "
                "canonical forms. The two non-blocking queues are checked to be delegations to the ring containers (enqueue=publish, "
-               "dequeue=consume with copy-out before release).")
+               "dequeue=consume with copy-out before release) and (R18.7) the rings underneath satisfy the ring shape conditions shared with C02 (counter "
+               "protocol shapes, exact fullness / emptiness guards on the signed wrapping distance, index agreement, complete full-sync critical sections).")
 ASSUMPTIONS = ["mutual exclusion + the sequential behaviour covered by the single-threaded unit tests => linearizability of the stacks",
                "linearizability of the atomic ring under contention is not decided statically (see C01/C02 notes)"]
 
